@@ -16,7 +16,11 @@ MANIFEST = dict(
          "start-up replay leave every state-machine actor in the same state at quiescence "
          "(C07_same_sequence_same_state), the three 11-way dispatches agree up to the delivery mode "
          "(C07_tables_equal, kernel computation over tables REGENERATED from raftdata.rs on every run by "
-         "translators/dispatch.py, which refuses unknown shapes), last_applied is tracked identically. The two "
+         "translators/dispatch.py, which refuses unknown shapes), last_applied is tracked identically; instantiated "
+         "with CONCRETE handlers (C07_same_state_config_seq): the ConfigActor store (builder E's model), "
+         "SequenceDbManager and the TableManager rows end IDENTICAL on the three paths for every in-scope sequence "
+         "(boolean scope: ConfigFullValue decodes through the modelled ConfigValueDO decoder, default tenant, no "
+         "T_CACHE row). The two "
          "hypotheses (every ConfigFullValue decodes; no handler-to-handler forward) are shown necessary by refuted "
          "statements whose witnesses are replayed on the real actors. Model tied to the code by the translator and by "
          "a differential run: three fresh real RaftDataHandler/StateApplyManager nodes fed one random committed "
